@@ -34,6 +34,17 @@ func findFirstPartTrackOfLeadingTrack(parts []*fmp4.Part, leadingTrackID int) *f
 	return nil
 }
 
+func partsAreEmpty(parts []*fmp4.Part) bool {
+	for _, part := range parts {
+		for _, partTrack := range part.Tracks {
+			if len(partTrack.Samples) != 0 {
+				return false
+			}
+		}
+	}
+	return true
+}
+
 func findTimeScaleOfLeadingTrack(tracks []*fmp4.InitTrack, leadingTrackID int) uint32 {
 	for _, track := range tracks {
 		if track.ID == leadingTrackID {
@@ -152,6 +163,11 @@ func (p *clientStreamProcessorFMP4) run(ctx context.Context) error {
 
 func (p *clientStreamProcessorFMP4) processSegment(ctx context.Context, seg *segmentData) error {
 	if seg == nil {
+		// every segment of the leading stream was empty: no time origin was defined,
+		// the other streams would wait for it forever
+		if p.isLeading && p.trackProcessors == nil {
+			return fmt.Errorf("could not find data of leading track")
+		}
 		p.streamDownloader.setEnded()
 		<-ctx.Done()
 		return fmt.Errorf("terminated")
@@ -165,6 +181,11 @@ func (p *clientStreamProcessorFMP4) processSegment(ctx context.Context, seg *seg
 
 	leadingPartTrack := findFirstPartTrackOfLeadingTrack(parts, p.leadingTrackID)
 	if leadingPartTrack == nil {
+		// a segment or part carries no sample at all when the tracks of its stream
+		// had nothing to write between two cuts of the leading stream: nothing to process
+		if len(parts) != 0 && partsAreEmpty(parts) {
+			return nil
+		}
 		return fmt.Errorf("could not find data of leading track")
 	}
 
